@@ -150,13 +150,19 @@ pub fn record_run(tr: &mut Trace, run: usize, world: &World, tok: &mut StatefulT
             let nb: Vec<(usize, usize)> = nodes.iter().map(|n| (n.begin_bytes(), n.end_bytes())).collect();
             let nc: Vec<Value> = nodes.iter().map(|n| json!([n.begin(), n.end()])).collect();
             let modtext = cps(input.current());
+            // the word-start table the buffer reports for the rewritten text (per character)
+            let bow: Vec<bool> = {
+                use sudachi::input_text::InputTextIndex;
+                let n = input.current_chars().len();
+                (0..n).map(|i| input.can_bow(input.to_curr_byte_idx(i))).collect()
+            };
             let list = MorphemeList::from_components(world.dict.clone(), input, nodes, subset);
             let r = catch(std::panic::AssertUnwindSafe(|| morphemes_json(&list, &nb)));
             // the difference of the first and last total costs; split pieces carry i32::MAX (known finding of C03): 0 when it cannot be computed
             let internal = catch(std::panic::AssertUnwindSafe(|| list.get_internal_cost())).unwrap_or(0);
             match r {
                 Ok(ms) => {
-                    tr.emit(json!({"ev": "result", "run": run, "res": "ok", "morphemes": ms, "mod": modtext, "chars": nc, "internal_cost": internal}));
+                    tr.emit(json!({"ev": "result", "run": run, "res": "ok", "morphemes": ms, "mod": modtext, "bow": bow, "chars": nc, "internal_cost": internal}));
                     Some(list)
                 }
                 Err(msg) => {
